@@ -41,6 +41,7 @@ class Ctx:
         self.scale = 1  # multiplied when the tie is broken and the search is extended
         self.evaluations = 0
         self.distinct = set()
+        self.distinct_bulk = 0  # cases known distinct by construction (exhaustive enumerations), counted not stored
         self.samples = []
         self.tally = core.Tally()
         self.disagreements = []  # (obligation, input, model, impl)
@@ -313,7 +314,7 @@ def run_check(pid, tier, seed, level, level_text=None):
             "theorems": thms,
             "tables_regenerated": b["changed"],
             "evaluations": ctx.evaluations,
-            "distinct_nontrivial": len(ctx.distinct),
+            "distinct_nontrivial": len(ctx.distinct) + ctx.distinct_bulk,
             "rule": getattr(mod, "RULE", ""),
             "samples": ctx.samples or ["(none)"],
             "exhaustive": bool(ctx.exhaustive),
@@ -336,7 +337,7 @@ def run_check(pid, tier, seed, level, level_text=None):
         print(l)
     status = "PASS" if exit_code == 0 else "FAIL"
     print("%s %s tier=%s seed=%d theorems=%d/%d evaluations=%d distinct=%d disagreements=%d violations=%d wall=%.1fs" % (
-        status, pid, tier, seed, sum(1 for t in thms if t["ok"]), len(thms), ctx.evaluations, len(ctx.distinct),
+        status, pid, tier, seed, sum(1 for t in thms if t["ok"]), len(thms), ctx.evaluations, len(ctx.distinct) + ctx.distinct_bulk,
         n_dis, len(new_violations), time.time() - t0))
     if proof_problems:
         print("proof/tie problems:\n  " + "\n  ".join(p[:600] for p in proof_problems[:6]))
